@@ -910,7 +910,9 @@ impl VolHeader {
     }
 
     pub fn realistic(rng: &mut Rng) -> Self {
-        let v = { let f = rng.range(1, 999); rng.pooled(7, f) % 999 + 1 };
+        // (extension numbers run 001..999 in real files; the field holds any three characters,
+        // "000" among them)
+        let v = if rng.chance(1, 12) { 0 } else { let f = rng.range(1, 999); rng.pooled(7, f) % 999 + 1 };
         VolHeader {
             tape: *b"AR2V0006.",
             ext: [
